@@ -59,6 +59,15 @@ def constructed():
               '!anmmap\n' + ''.join('!enum(name="Abcdef%d")\n1 v%d\n' % (i, i) for i in range(1, 7)) + '!ins_signatures\n900 S(enum="Abcdef")\n'))
     C.append(('enum-suggestion-tie-in-source', 'anm', 'th12', ANM_HEAD + 'script s {\n ins_3(Abcdef.v1);\n}\n',
               '!anmmap\n' + ''.join('!enum(name="Abcdef%d")\n1 v%d\n' % (i, i) for i in range(1, 7))))
+    # two *different* intrinsics that can serve the same construct (both decrement-jump flavours; one-part and two-part conditional
+    # jumps; native and fallback negation): which one the compiler prefers must not depend on iteration order
+    for tool, game, mk, (ri, rj, rf) in (('anm', 'th12', '!anmmap', ('$REG[10000]', '$REG[10001]', '%REG[10004]')), ('ecl', 'th07', '!eclmap', ('$REG[10000]', '$REG[10001]', '%REG[10004]')),
+                                        ('ecl', 'th06', '!eclmap', ('$REG[-10001]', '$REG[-10002]', '%REG[-10005]'))):
+        alt = mk + '\n!ins_signatures\n900 Sot\n901 Sot\n902 SSot\n903 SS\n904 ot\n905 SS\n906 ffot\n907 ff\n!ins_intrinsics\n900 CountJmp(op=">")\n901 CountJmp(op="!=")\n' \
+              '902 CondJmp(op="=="; type="int")\n903 DedicatedCmp(type="int")\n904 DedicatedCmpJmp(op="==")\n905 UnOp(op="-"; type="int")\n906 CondJmp(op="<"; type="float")\n907 DedicatedCmp(type="float")\n'
+        body = ' %s = 5;\n times(%s = 3) {\n  %s = -%s;\n }\n times(4) { %s = 1; }\n lbl:\n if (%s == 2) goto lbl;\n if (%s < 1.5) goto lbl;\n do { %s = 2; } while (--%s);\n' % (ri, rj, ri, rj, ri, ri, rf, ri, rj)
+        src = (ANM_HEAD + 'script s {\n%s}\n' % body) if tool == 'anm' else ('void sub0() {\n%s}\nscript timeline0 {}\n' % body)
+        C.append(('alternative-intrinsics-%s-%s' % (tool, game), tool, game, src, alt))
     return C
 
 def constructed_binaries():
@@ -74,6 +83,12 @@ def constructed_binaries():
     B.append(('decompile-several-names', 'anm', 'th12', ANM_HEAD + 'script s {\n ins_2001($REG[10000]);\n ins_2002($REG[10001]);\n}\n', sigs, names))
     wrongsigs = '!anmmap\n!ins_signatures\n' + ''.join('%d %s\n' % (op, sg) for op, sg in zip(range(2001, 2009), ['SS', 'f', 'SSS', 'z(bs=4)', 'ff', 'S', 'SS', 'fS']))
     B.append(('decompile-wrong-signatures', 'anm', 'th12', ANM_HEAD + 'script s {\n%s}\n' % body, sigs, wrongsigs))
+    # PCB-StB ECL: the decompiler infers each sub's parameters from its call sites; here they disagree, with equally many sites for every shape
+    calls = 'script timeline0 {}\nvoid worker() {\n ins_0();\n}\nvoid other() {\n ins_0();\n}\nvoid caller() {\n' \
+            ' $REG[10037] = 3;\n $REG[10038] = 4;\n ins_41(worker);\n $REG[10037] = 5;\n %REG[10041] = 2.0;\n ins_41(worker);\n %REG[10041] = 1.0;\n ins_41(worker);\n ins_41(worker);\n' \
+            ' %REG[10041] = 1.0;\n %REG[10042] = 2.0;\n ins_41(other);\n $REG[10037] = 1;\n ins_41(other);\n}\n'
+    for g in ('th07', 'th08', 'th095'):
+        B.append(('decompile-callsites-disagree-%s' % g, 'ecl', g, calls if g == 'th07' else calls.replace('ins_41(', 'ins_52('), '!eclmap\n', None))
     return B
 
 def run_n(ctx, argv_fn, n, outputs):
@@ -106,6 +121,9 @@ def judge(ctx, name, argv, obs, first, replay, constructed=False):
     if constructed: ctx.count('constructed_inputs')
     if any(o['rc'] is None for o in obs):
         ctx.inconcl('process timeout'); return
+    if any(o['rc'] in (-9, -15) for o in obs):
+        # SIGKILL / SIGTERM never come from truth itself (it sends no signals): the process was killed from outside (OOM killer, operator)
+        ctx.inconcl('process killed from outside (SIGKILL/SIGTERM)'); return
     diffs = set()
     for o in obs[1:]:
         for k in ('rc', 'stdout', 'stderr', 'files'):
@@ -114,8 +132,8 @@ def judge(ctx, name, argv, obs, first, replay, constructed=False):
         other = next(o for o in obs[1:] if any(o[k] != first[k] for k in diffs))
         what = 'differs in ' + ','.join(sorted(diffs))
         head = core.norm_msg(core.headline(first['stderr'])) if 'stderr' in diffs else ('output-files' if 'files' in diffs else 'stdout')
-        ctx.violation('nondeterminism:%s' % head[:100], what, dict(replay, argv=argv, run_a={'stderr': first['stderr'][-3000:], 'stdout': first['stdout'][-2000:], 'files': first['files']},
-                                                                     run_b={'stderr': other['stderr'][-3000:], 'stdout': other['stdout'][-2000:], 'files': other['files']}))
+        ctx.violation('nondeterminism:%s' % head[:100], what, dict(replay, argv=argv, run_a={'rc': first['rc'], 'stderr': first['stderr'][-3000:], 'stdout': first['stdout'][-2000:], 'files': first['files']},
+                                                                     run_b={'rc': other['rc'], 'stderr': other['stderr'][-3000:], 'stdout': other['stdout'][-2000:], 'files': other['files']}))
     if first['stderr'].strip() or first['files']:
         ctx.fp(name, hashlib.md5(json.dumps(replay, sort_keys=True, default=str).encode()).hexdigest())
     ctx.seen('exit_codes', first['rc'])
